@@ -3763,7 +3763,9 @@ void ADFH_Write_Block_Data(const double ID,
 #endif
   H5Tclose(mid);
   H5Tclose(tid);
-  H5Dclose(did);
+  /* libhdf5 flushes its raw-data buffer when the dataset is closed: a write error can surface here */
+  if (H5Dclose(did) < 0 && *err == NO_ERROR)
+    set_error(ADFH_ERR_DWRITE, err);
 }
 
 /* ----------------------------------------------------------------- */
@@ -3941,7 +3943,9 @@ void ADFH_Write_Data(const double ID,
   H5Sclose(dspace);
   H5Tclose(mid);
   H5Tclose(tid);
-  H5Dclose(did);
+  /* libhdf5 flushes its raw-data buffer when the dataset is closed: a write error can surface here */
+  if (H5Dclose(did) < 0 && status >= 0)
+    status = -1;
 
   if (status < 0)
     set_error(ADFH_ERR_DWRITE, err);
@@ -4006,7 +4010,9 @@ void ADFH_Write_All_Data(const double  id,
 #endif
     H5Tclose(mid);
     H5Tclose(tid);
-    H5Dclose(did);
+    /* libhdf5 flushes its raw-data buffer when the dataset is closed: a write error can surface here */
+    if (H5Dclose(did) < 0 && *err == NO_ERROR)
+      set_error(ADFH_ERR_DWRITE, err);
   }
   else
     set_error(NO_DATA, err);
